@@ -1,5 +1,6 @@
 /- Line-protocol driver for the geno model, C11 (see harness/c11.py for the request shapes). -/
 import Driver.C11Json
+import PgModel.Geno.Hooks
 open Pg Pg.Geno Pg.GenoJson
 
 /-- One DNA-shaped input: normalised tree, verdicts of the implementation model and of the spec. -/
@@ -13,6 +14,36 @@ def checkOne (g : Spec) (finite : Bool) (j : J) : J :=
           (if finite then [("next", match g.next d with
               | some (some d') => if g.bind d' then dnaToJ d' else .str "error"   -- `next_dna` binds its result
               | r => nextToJ r)] else []))
+
+/-- The hook tables of a spec JSON: every custom point `{"t": "u", …, "hook": [strings]}`. -/
+partial def hooksOfJ (j : J) : List (Info × List String) :=
+  match j.getStr? "t" with
+  | some "s" => ((j.getArr? "elems").getD []).flatMap hooksOfJ
+  | some "c" => ((j.getArr? "cands").getD []).flatMap fun c => (c.asArr?.getD []).flatMap hooksOfJ
+  | some "u" =>
+    match infoOfJ j, (j.getArr? "hook").bind (·.mapM J.asStr?) with
+    | some info, some l => [(info, l)]
+    | _, _ => []
+  | _ => []
+
+def hookTable (tb : List (Info × List String)) (i : Info) : Option (List String) :=
+  (tb.find? fun e => e.1.name == i.name && e.1.loc == i.loc).map (·.2)
+
+/-- `first_dna` / `iter_dna` / `next_dna` of a spec whose custom points have list hooks. -/
+def hookedPart (hj : J) : J :=
+  match (hj.get? "spec").bind specOfJ with
+  | none => bad "hooked spec"
+  | some g =>
+    let hk := listHooks (hookTable (hooksOfJ ((hj.get? "spec").getD .null)))
+    let fuel := (hj.getNat? "fuel").getD 0
+    .obj [("first", dnaToJ (g.firstH hk)),
+          ("iter", match g.iterH hk fuel with
+             | none => .str "error"
+             | some (l, ended) => .obj [("dnas", .arr (l.map dnaToJ)), ("ended", .bool ended)]),
+          ("nexts", .arr (((hj.getArr? "dnas").getD []).map fun dj =>
+             match dnaOfJ dj with
+             | none => bad "dna"
+             | some d => nextToJ (g.nextH hk d)))]
 
 def handle (j : J) : J :=
   match j.getStr? "op" with
@@ -54,6 +85,13 @@ def handle (j : J) : J :=
           | none => J.null
           | some (d, rest) => .obj [("dna", dnaToJ d), ("left", .int rest.length),
                                      ("valid", .bool (g.valid d))]
+      let prevRandoms := ((j.getArr? "prev_draws").getD []).map fun pj =>
+        match (pj.get? "prev").bind dnaOfJ, (pj.getArr? "draws").bind (·.mapM drawOfJ) with
+        | some pd, some o =>
+          (match g.randomPrev (some pd) o with
+           | none => J.null
+           | some (d, rest) => .obj [("dna", dnaToJ d), ("left", .int rest.length)])
+        | _, _ => bad "prev_draws"
       let cmps := ((j.getArr? "cmps").getD []).map fun p =>
         match p with
         | .arr [a, b] =>
@@ -61,7 +99,10 @@ def handle (j : J) : J :=
           | some x, some y => ordToJ (DNA.cmp x y)
           | _, _ => bad "cmp"
         | _ => bad "cmp"
-      .obj (base ++ enumPart ++ sweepPart ++ [("checks", .arr checks), ("randoms", .arr randoms), ("cmps", .arr cmps)])
+      let hooked : List (String × J) := match j.get? "hooked" with
+        | some hj => if hj matches .null then [] else [("hooked", hookedPart hj)]
+        | none => []
+      .obj (base ++ enumPart ++ sweepPart ++ hooked ++ [("checks", .arr checks), ("randoms", .arr randoms), ("prev_randoms", .arr prevRandoms), ("cmps", .arr cmps)])
   | _ => bad "op"
 
 def main : IO Unit := driverLoop handle
